@@ -240,10 +240,15 @@ def run_native(top, registry, state, extra_check=None):
     if getattr(top, 'native_setup', None):
         top.native_setup(env)
         params = {n: env[n] for n in params}
+    _teardown = (getattr(top, 'extra', {}) or {}).get('native_teardown')
     try:
         if top.requires is not None and not all(flatten(call_clause(top.requires, env))):
+            if _teardown:
+                _teardown(env)
             return {'outcome': 'precondition-false'}
     except Exception as e:
+        if _teardown:
+            _teardown(env)
         return {'outcome': 'error', 'detail': f'requires: {e!r}'}
     # entry by entry: an object that cannot be deep-copied (pyee emitters) must not make `old.ghost` alias the live ghost
     old = types.SimpleNamespace(**{k: snapshot(v) for k, v in env.items()})
@@ -351,6 +356,9 @@ def run_native(top, registry, state, extra_check=None):
             pass
         for owner, attr, orig in patches:
             setattr(owner, attr, orig)
+        teardown = (getattr(top, 'extra', {}) or {}).get('native_teardown')
+        if teardown:
+            teardown(env)  # undo what native_setup installed outside the objects of this replay (e.g. a patched class attribute)
     if type(exc).__name__ == 'ReplayTimeout':
         return {'outcome': 'error', 'detail': 'native run exceeded 10 s (possible busy loop)'}
     env2 = dict(env)
